@@ -26,7 +26,9 @@ RULE = (
     "sequence with ONE bad element substituted at a drawn position (neighbours may be NaN/bool/extremes); 1-3 "
     "assignments per message, each checked against a domain model (accepted => in-domain, read-back equal, bytes "
     "outside the field untouched; raised => all bytes unchanged; out-of-domain => raised). An 11th campaign draws "
-    "forests of nested disable_message_validation(ignore) blocks left normally or by exception and probes with an "
+    "forests of nested disable_message_validation(ignore) blocks left normally, by an ordinary exception (ValueError, KeyError, "
+    "StopIteration), by a BaseException (KeyboardInterrupt, SystemExit, GeneratorExit, asyncio.CancelledError, a custom "
+    "BaseException subclass) or entered in a generator that is suspended inside the block and then closed / dropped, and probes with an "
     "invalid assignment inside every block and after every exit. Non-trivial = an out-of-domain element at a "
     "non-first position of a sequence, or an accepted boundary value, or a disable forest with a block left by "
     "exception; distinct = (kind, element type, form, cause, position class, neighbour class, length class) / "
@@ -47,6 +49,8 @@ ASSUME = [
     "float32 domain = struct.pack('<f', v) does not raise OverflowError; read-back compared bit-exactly after that round trip "
     "(NaN reads back as any NaN)",
     "strings are compared up to the first NUL; stale bytes behind the NUL inside the field are allowed",
+    "while a generator is suspended inside a disable block nothing is probed in the caller (whether the caller is then 'inside' "
+    "the block is decided by no document); after close()/garbage collection validation must be in force again",
     "disable-block probes use assignments that ctypes itself accepts silently (int8=200, byte=256, float32[]=[0,1e39,..], "
     "struct=()), so 'raised' can only come from the validators",
 ]
@@ -321,8 +325,33 @@ def run_assign_case(trace: dict, res: Result):
 # -- disable blocks ---------------------------------------------------------------------------
 
 
-class _Boom(Exception):
-    pass
+class _CustomBase(BaseException):
+    """A user-defined BaseException subclass (not an Exception)."""
+
+
+ORDINARY_EXITS = ["ValueError", "KeyError", "StopIteration"]
+BASE_EXITS = ["KeyboardInterrupt", "SystemExit", "GeneratorExit", "CancelledError", "CustomBaseException"]
+GEN_EXITS = ["gen-close", "gen-del"]  # block entered inside a generator that is suspended in it and then closed / dropped
+
+
+def _make_exit(kind: str) -> BaseException:
+    if kind == "CancelledError":
+        import asyncio
+
+        return asyncio.CancelledError()
+    if kind == "CustomBaseException":
+        return _CustomBase()
+    if kind in ORDINARY_EXITS + BASE_EXITS:
+        return {"ValueError": ValueError, "KeyError": KeyError, "StopIteration": StopIteration, "KeyboardInterrupt": KeyboardInterrupt,
+                "SystemExit": SystemExit, "GeneratorExit": GeneratorExit}[kind]("verif: leaving the disable block")
+    raise HarnessError(f"unknown exit kind {kind}")
+
+
+def _exit_kind(nd: dict) -> str:
+    e = nd["exc"]
+    if e is True:  # traces written before exit kinds existed
+        return "ValueError"
+    return e or ""
 
 
 def _probe_assign(kind: str):
@@ -343,7 +372,7 @@ def _probe_assign(kind: str):
 
 
 def _sig(nodes) -> str:
-    return "".join(("I" if n["ig"] else "R") + ("!" if n["exc"] else "") + ("(" + _sig(n["ch"]) + ")" if n["ch"] else "")
+    return "".join(("I" if n["ig"] else "R") + ("!" + _exit_kind(n) if n["exc"] else "") + ("(" + _sig(n["ch"]) + ")" if n["ch"] else "")
                    for n in nodes)
 
 
@@ -353,7 +382,7 @@ def run_disable_case(trace: dict, res: Result):
         res.count("disable:state-reset-before-case")
     V._VALIDATION_ENABLED.set(True)
     kind = trace["probe"]
-    st_ = {"exc_exits": 0, "probes": 0}
+    st_ = {"last_abnormal": "", "probes": 0}
 
     def probe(depth: int, where: str):
         st_["probes"] += 1
@@ -366,7 +395,9 @@ def run_disable_case(trace: dict, res: Result):
             raised = True
         res.count(f"disable:probe:{'inside' if depth else 'outside'}:{'raised' if raised else 'silent'}")
         if depth == 0 and not raised:
-            why = "exception-exit" if st_["exc_exits"] else "normal-exit"
+            la = st_["last_abnormal"]
+            why = ("normal-exit" if not la else "exception-exit" if la in ORDINARY_EXITS
+                   else "generator-close" if la in GEN_EXITS else "baseexception-exit")
             raise Violation(f"disable/validation-off-after-{why}",
                             f"invalid {kind} probe accepted outside every real disable block ({where}; forest {_sig(trace['tree'])})",
                             trace)
@@ -374,19 +405,46 @@ def run_disable_case(trace: dict, res: Result):
             raise Violation("disable/validation-on-inside-disable-block",
                             f"invalid {kind} probe refused inside a real disable block ({where}; forest {_sig(trace['tree'])})", trace)
 
+    def body(nd: dict, d2: int, name: str):
+        probe(d2, f"on entry of {name}")
+        for i, ch in enumerate(nd["ch"]):
+            node(ch, d2, f"{name}.{i}")
+
     def node(nd: dict, depth: int, name: str):
         d2 = depth + (0 if nd["ig"] else 1)
-        try:
+        ek = _exit_kind(nd)
+        if ek in GEN_EXITS:
+            def g():
+                with V.disable_message_validation(ignore=nd["ig"]):
+                    body(nd, d2, name)
+                    yield 1
+                    raise HarnessError("generator resumed")  # never: it is closed while suspended in the block
+
+            gen = g()
+            next(gen)  # runs the block body; Violation / HarnessError from it propagate to the caller
+            if ek == "gen-close":
+                gen.close()
+            else:
+                del gen  # last reference: CPython finalises (closes) the generator right here
+        elif ek:
+            marker = _make_exit(ek)
+            try:
+                with V.disable_message_validation(ignore=nd["ig"]):
+                    body(nd, d2, name)
+                    raise marker
+            except BaseException as e:  # only OUR exception is swallowed; Violation/HarnessError/anything else goes on
+                if e is not marker:
+                    raise
+        else:
             with V.disable_message_validation(ignore=nd["ig"]):
-                probe(d2, f"on entry of {name}")
-                for i, ch in enumerate(nd["ch"]):
-                    node(ch, d2, f"{name}.{i}")
-                if nd["exc"]:
-                    raise _Boom()
-        except _Boom:
-            st_["exc_exits"] += 1
-        res.count(f"disable:exit:{'ignore' if nd['ig'] else 'real'}:{'exception' if nd['exc'] else 'normal'}")
-        probe(depth, f"after {'exception' if nd['exc'] else 'normal'} exit of {name}")
+                body(nd, d2, name)
+        if ek and not nd["ig"]:
+            st_["last_abnormal"] = ek
+        cls_ = "normal" if not ek else "exception" if ek in ORDINARY_EXITS else "generator" if ek in GEN_EXITS else "baseexception"
+        res.count(f"disable:exit:{'ignore' if nd['ig'] else 'real'}:{cls_}")
+        if ek:
+            res.count(f"disable:exit-kind:{ek}")
+        probe(depth, f"after {ek or 'normal'} exit of {name}")
 
     try:
         probe(0, "before any block")
@@ -629,9 +687,13 @@ def assign_case(draw, group: str):
     return {"sub": group, "cls": ref, "steps": steps}
 
 
+_EXIT = st.one_of(st.just(""), st.just(""), st.sampled_from(ORDINARY_EXITS), st.sampled_from(BASE_EXITS), st.sampled_from(BASE_EXITS),
+                  st.sampled_from(GEN_EXITS))
+
+
 def _node(depth: int):
     ch = st.just([]) if depth <= 0 else st.lists(st.deferred(lambda: _node(depth - 1)), max_size=3)
-    return st.builds(lambda ig, exc, c: {"ig": ig, "exc": exc, "ch": c}, st.booleans(), st.booleans(), ch)
+    return st.builds(lambda ig, exc, c: {"ig": ig, "exc": exc, "ch": c}, st.booleans(), _EXIT, ch)
 
 
 def disable_case():
